@@ -45,14 +45,19 @@ class Raised(Exception):
 PURE_BUILTINS = {"abs": abs, "min": min, "max": max, "len": len, "tuple": tuple, "list": list,
                  "sorted": sorted, "bool": bool, "sum": sum, "any": any, "all": all, "set": set,
                  "range": range, "enumerate": enumerate, "zip": zip, "reversed": reversed, "int": int, "round": round,
-                 "float": float, "isinstance": None}
+                 "float": float, "isinstance": None, "id": id, "map": map, "str": str, "Fraction": Fr}
+
+
+CONTAINER_METHODS = {"append", "pop", "remove", "insert", "add", "index", "count", "extend", "sort", "reverse", "copy",
+                     "discard", "get", "items", "keys", "values", "setdefault", "update", "clear"}
 
 
 class Ev:
     """evaluation of a pure fragment over representatives; `hook(ev, call)` may supply the value of a call
     (return NotImplemented to fall through); `attr_hook(ev, node)` the value of attribute reads."""
 
-    def __init__(self, env, hook=None, attr_hook=None, asserts=False):
+    def __init__(self, env, hook=None, attr_hook=None, asserts=False, store_hook=None):
+        self.store_hook = store_hook
         self.env = dict(env)
         self.hook = hook
         self.attr_hook = attr_hook
@@ -136,11 +141,48 @@ class Ev:
             if not broke:
                 self.block(st.orelse)
             return
+        if isinstance(st, ast.Try):
+            self._try(st)
+            return
         if isinstance(st, ast.Continue):
             raise _Cont()
         if isinstance(st, ast.Break):
             raise _Brk()
         raise Undecided("statement " + U(st)[:50])
+
+    def _try(self, st):
+        import builtins
+        try:
+            try:
+                self.block(st.body)
+            except (_Ret, _Brk, _Cont, Undecided):
+                raise
+            except Raised as r:
+                name = r.what.split("(")[0].strip()
+                self._handle(st, name, r)
+            except Exception as ex:      # raised by a stand-in object
+                self._handle(st, type(ex).__name__, ex)
+            else:
+                self.block(st.orelse)
+        finally:
+            if st.finalbody:
+                self.block(st.finalbody)
+
+    def _handle(self, st, name, exc):
+        import builtins
+        for h in st.handlers:
+            if h.type is None:
+                return self.block(h.body)
+            ts = h.type.elts if isinstance(h.type, ast.Tuple) else [h.type]
+            for t in ts:
+                tn = U(t)
+                cls = getattr(builtins, tn, None)
+                ecls = getattr(builtins, name, None)
+                if tn == name or (isinstance(cls, type) and isinstance(ecls, type) and issubclass(ecls, cls)):
+                    if h.name:
+                        self.env[h.name] = exc
+                    return self.block(h.body)
+        raise exc
 
     def assign(self, t, v):
         if isinstance(t, ast.Name):
@@ -153,6 +195,8 @@ class Ev:
                 self.assign(e, x)
         elif isinstance(t, ast.Subscript):
             self.ev(t.value)[self.ev(t.slice)] = v
+        elif isinstance(t, ast.Attribute) and self.store_hook is not None:
+            self.store_hook(self, t, v)
         else:
             raise Undecided("assign " + U(t))
 
@@ -172,6 +216,12 @@ class Ev:
             return l // r
         if isinstance(op, ast.Pow):
             return l ** r
+        if isinstance(op, ast.BitAnd):
+            return l & r
+        if isinstance(op, ast.BitOr):
+            return l | r
+        if isinstance(op, ast.BitXor):
+            return l ^ r
         raise Undecided("operator " + type(op).__name__)
 
     def ev(self, e):
@@ -183,6 +233,8 @@ class Ev:
                 return self.env[e.id]
             if e.id in ("True", "False", "None"):
                 return {"True": True, "False": False, "None": None}[e.id]
+            if PURE_BUILTINS.get(e.id) is not None:
+                return PURE_BUILTINS[e.id]
             raise Undecided("name " + e.id)
         if isinstance(e, ast.Tuple):
             return tuple(self.ev(x) for x in e.elts)
@@ -237,16 +289,26 @@ class Ev:
             self._comp(e, 0, out)
             return out
         if isinstance(e, ast.Call):
+            # arguments are evaluated exactly once (they may have side effects such as list.pop)
+            args = []
+            for a in e.args:
+                if isinstance(a, ast.Starred):
+                    args.extend(self.ev(a.value))
+                else:
+                    args.append(self.ev(a))
+            kwargs = {k.arg: self.ev(k.value) for k in e.keywords if k.arg}
             if self.hook:
-                h = self.hook(self, e)
+                h = self.hook(self, e, args, kwargs)
                 if h is not NotImplemented:
                     return h
-            if isinstance(e.func, ast.Name) and PURE_BUILTINS.get(e.func.id) is not None and not e.keywords:
-                return PURE_BUILTINS[e.func.id](*[self.ev(a) for a in e.args])
-            if isinstance(e.func, ast.Attribute) and e.func.attr in ("append", "pop", "remove", "insert", "add", "index"):
+            if isinstance(e.func, ast.Name) and PURE_BUILTINS.get(e.func.id) is not None and not kwargs:
+                return PURE_BUILTINS[e.func.id](*args)
+            if isinstance(e.func, ast.Name) and e.func.id == "sorted":
+                return sorted(*args, **kwargs)
+            if isinstance(e.func, ast.Attribute) and e.func.attr in CONTAINER_METHODS:
                 recv = self.ev(e.func.value)
-                if isinstance(recv, (list, set)):
-                    return getattr(recv, e.func.attr)(*[self.ev(a) for a in e.args])
+                if isinstance(recv, (list, set, tuple, dict)) and hasattr(recv, e.func.attr):
+                    return getattr(recv, e.func.attr)(*args, **kwargs)
             raise Undecided("call " + U(e.func))
         raise Undecided(U(e)[:50])
 
